@@ -50,6 +50,39 @@ def premise_ok(recs, kind):
     return any(c >= 2 for c in groups.values())
 
 
+def cap_induced_zero(recs, kind):
+    """known finding C12-prefix-1024: some OTHER sequence is at guide-tree distance 0 from a repeated sequence only because bpm_block looks at the
+    first 1024 symbols of the shorter of the two (neither contains the other)"""
+    seqs = [q for _, q in recs]
+    red = {q: reduce(q, kind) for q in set(seqs)}
+    for S in set(seqs):
+        if seqs.count(S) < 2:
+            continue
+        for T in set(seqs):
+            if T == S:
+                continue
+            a, b = (red[S], red[T]) if len(red[S]) <= len(red[T]) else (red[T], red[S])
+            if len(a) > 1024 and a[:1024] in b and a not in b:
+                return True
+    return False
+
+
+def known_witness(ctx, kvh):
+    for kf in ctx.known.get("findings", []):
+        if kf.get("property") != "C12" or kf.get("key") != "C12-prefix-1024":
+            continue
+        w = kf["witness"]
+        recs = [tuple(x) for x in w["records"]]
+        c = Case(recs, w["type"], threads=w["threads"], api=w["api"], fmt="fasta")
+        sysrun.run_cases(kvh, [c])
+        rows = dict(sysrun.parse_output(c) or []) if c.rc == 0 else {}
+        got = set(rows.get(n) for n in w["copies"])
+        if c.rc == 0 and len(got) > 1 and premise_ok(recs, "protein") and cap_induced_zero(recs, "protein"):
+            ctx.violation(kf["what"], dict(kind="known-witness"), key="C12-prefix-1024")
+        else:
+            ctx.notes.append("known finding C12-prefix-1024 no longer reproduces on its witness")
+
+
 def run(ctx):
     ctx.trusted = list(C.TRUSTED_COMMON) + ["A-float: UPGMA averages in binary32; the clade theorem is over exact arithmetic with margins >= 0.4",
                                             "premise (containment) checked by an independent substring test on the full and on the 13-class reduced alphabet"]
@@ -122,6 +155,8 @@ def run(ctx):
         c = Case(recs, t, threads=rng.choice([1, 4, 16]), api=rng.choice(["file", "arr"]), fmt="fasta")
         cases.append(c)
     sysrun.run_cases(kvh, cases)
+    known_witness(ctx, kvh)
+    known_reported = []
     fails = []
     for c in cases:
         ctx.evaluations += 1
@@ -134,6 +169,19 @@ def run(ctx):
             by.setdefault(s, set()).add(r)
         bad = [(s, sorted(v)) for s, v in by.items() if len(v) > 1]
         if bad:
+            kindc = gen.detect_kind(c.records)
+            kindc = "protein" if kindc == "protein" else "dna"
+            if cap_induced_zero(c.records, kindc):
+                # the recorded finding (distance cap at 1024 symbols), not a new violation
+                ctx.count("copies_differ_(known_prefix_1024)")
+                if not known_reported:
+                    known_reported.append(1)
+                    kf = next((x for x in ctx.known.get("findings", []) if x.get("key") == "C12-prefix-1024"), None)
+                    if kf:
+                        ctx.violation(kf["what"], dict(kind="known-class", case=c.describe()), key="C12-prefix-1024")
+                        continue
+                else:
+                    continue
             fails.append(("copies of one sequence received different rows", dict(case=c.describe(), sequence=bad[0][0], rows=bad[0][1])))
             continue
         ctx.count("sets_ok")
